@@ -14,9 +14,10 @@ PID = "C14"
 
 # several representatives per source class; every invocation shape is replayed with each of them
 ASM_SRC = {
-    "accepted": ["LDAC 0\nLDBM 1\nSTAI 2\nLDAC 0\nOPR SVC\n", "BR s\nDATA 199997\ns\nLDAC 0\nLDBM 1\nSTAI 2\nLDAC 0\nOPR SVC\nd\nDATA 7\n"],
-    "lexical": ["LDAC 0\nLDAC $\n", "LDAC 1 %\n"],
-    "syntax": ["LDAC 0\nOPR LDAC\n", "LDAC 0\nDATA\n", "LDAC -\n", "LDAC 0\nOPR 3\n"],
+    "accepted": ["LDAC 0\nLDBM 1\nSTAI 2\nLDAC 0\nOPR SVC\n", "BR s\nDATA 199997\ns\nLDAC 0\nLDBM 1\nSTAI 2\nLDAC 0\nOPR SVC\nd\nDATA 7\n",
+                 "LDAC 0\nLDBM 1\nSTAI 2\nLDAC 0\nOPR SVC\nDATA 99999999999999999999\nDATA 18446744073709551616\n"],
+    "lexical": ["LDAC 0\nLDAC $\n", "LDAC 1 %\n"],     # (hexasm's lexer has no errors of its own: these are rejected by the parser)
+    "syntax": ["LDAC 0\nOPR LDAC\n", "LDAC 0\nDATA\n", "LDAC -\n", "LDAC 0\nOPR 3\n", "LDAC\n", "DATA 1 2\n"],
     "semantic": ["LDAC 0\nBR nowhere\n", "LDAC 0\nlab\nLDAC 1\nLDAM lab\n", "LDAC 0\nLDAC 1\nLDAC 2\nx\nLDAC 1\nSTAM x\n"],
 }
 X_ERR = {
@@ -27,8 +28,16 @@ X_ERR = {
 }
 
 
-def x_src(v):
+def x_src(v, via="const"):
+    if via == "read":
+        return "proc main() is 0(2(0))\n"
     return "proc main() is 0(%s)\n" % (str(v) if v >= 0 else "-%d" % (-v))
+
+
+def stdin_of(inv):
+    if inv.get("via") == "read":
+        return b"" if inv["xv"] == 255 else bytes([inv["xv"]])
+    return b""
 
 
 def snapshot(d):
@@ -58,9 +67,9 @@ def run_shape(tdir, work, inv, k, rep=0):
         if tool == "hexasm":
             open(os.path.join(d, srcname), "w").write(ASM_SRC[inv["src"]][rep])
         elif tool in ("xcmp", "xrun"):
-            open(os.path.join(d, srcname), "w").write(x_src(inv["xv"]) if inv["src"] == "accepted" else X_ERR[inv["src"]][rep])
+            open(os.path.join(d, srcname), "w").write(x_src(inv["xv"], inv.get("via", "const")) if inv["src"] == "accepted" else X_ERR[inv["src"]][rep])
         else:
-            xs = os.path.join(d, "tmp.x"); open(xs, "w").write(x_src(inv["xv"]))
+            xs = os.path.join(d, "tmp.x"); open(xs, "w").write(x_src(inv["xv"], inv.get("via", "const")))
             vlib.sh([os.path.join(tdir, "xcmp"), xs, "-o", os.path.join(d, srcname)], cwd=d, check=True, timeout=60)
             os.remove(xs)
     # reference binary: the same source through the same compiler in a clean directory, default options
@@ -78,7 +87,7 @@ def run_shape(tdir, work, inv, k, rep=0):
     o = [inv["opt"], target] if inv["opt"] != "none" else []
     argv += (o + [srcname]) if inv["pos"] == "before" else ([srcname] + o)
     try:
-        p = subprocess.run(argv, cwd=d, stdin=subprocess.DEVNULL, stdout=subprocess.PIPE, stderr=subprocess.PIPE, timeout=60)
+        p = subprocess.run(argv, cwd=d, input=stdin_of(inv), stdout=subprocess.PIPE, stderr=subprocess.PIPE, timeout=60)
         status = p.returncode if p.returncode >= 0 else 1000 - p.returncode
         stderr = len(p.stderr) > 0
     except subprocess.TimeoutExpired:
@@ -120,7 +129,7 @@ def run(tier, replay=None):
                 ok += 1
             else:
                 inv = r["inv"]
-                chk.violation("%s:%s%d:%s:%s" % (inv["tool"], inv["src"], r["rep"], inv["opt"], inv["pre"]) + (":xv%d" % inv["xv"] if inv["tool"] in ("xrun", "hexsim") else ""),
+                chk.violation("%s:%s%d:%s:%s" % (inv["tool"], inv["src"], r["rep"], inv["opt"], inv["pre"]) + (":xv%d%s" % (inv["xv"], inv.get("via", "")) if inv["tool"] in ("xrun", "hexsim") else ""),
                               "`%s %s` (%s source, target %s): observed %s, which ToolRun does not allow" % (inv["tool"], r["argv"], inv["src"], inv["pre"], json.dumps(r["obs"])),
                               {"record.json": json.dumps(r)})
         chk.set("invocation_shapes", len(shapes)); chk.set("shapes_conforming", ok); chk.set("exhaustive", True)
